@@ -1338,6 +1338,44 @@ def r41_r42_iter_filter(text, fired, rules=('R41', 'R42')):
     return text
 
 
+def r43_result_map(text, fired):
+    """R43: `RECV.map(|X| BLOCK)`  ->  `(match RECV { Ok(X) => Ok(BLOCK), Err(map_e_N) => Err(map_e_N) })`
+
+    Definition of `Result::map` (std: "Maps a Result<T, E> to Result<U, E> by applying a function to a contained Ok value, leaving an Err
+    value untouched").  RECV must be a call expression `PATH(ARGS)` (evaluated once, first, as in the original) and the closure a block
+    closure with one identifier parameter; BLOCK is textually unchanged and becomes plain code of the enclosing function (unit asyncdevw:
+    `pwrite(..).map(|x| { self.account_written(x); x })` captures `&mut self`, which Verus rejects in a closure).  Nothing is dropped.
+    Only this shape is rewritten; every other `.map(` is left as it is.  A receiver that is not a `Result` (Option::map, Iterator::map)
+    does not type-check after the rewrite (`Ok(..)` pattern), so the rule cannot silently change its meaning."""
+    n = 0
+    pos = 0
+    while True:
+        msk = mask(text)
+        m = re.compile(r'\.\s*map\s*\(\s*\|\s*(\w+)\s*\|\s*\{').search(msk, pos)
+        if not m:
+            break
+        pos = m.end()
+        k = m.start() - 1
+        while k >= 0 and msk[k] in ' \t\n':
+            k -= 1
+        if k < 0 or msk[k] != ')':
+            continue                      # receiver is not a call expression: not this rule's shape
+        ob = m.end() - 1
+        cb = match_close(msk, ob)
+        tail = re.match(r'\s*\)', msk[cb + 1:])
+        if not tail:
+            continue
+        e = cb + 1 + tail.end()
+        rs = _call_receiver_start(msk, m.start())
+        recv = text[rs:m.start()].rstrip()
+        n += 1
+        new = '(match %s { Ok(%s) => Ok(%s), Err(map_e_%d) => Err(map_e_%d) })' % (recv, m.group(1), text[ob:cb + 1], n, n)
+        fired.append('R43 %s.map(|%s| {..}) -> match with the closure block in the Ok arm' % (norm_ws(recv)[:50], m.group(1)))
+        text = text[:rs] + _pad(new, text[rs:e]) + text[e:]
+        pos = rs
+    return text
+
+
 def r23_ghost_token_free_calls(text, fired, callees, arg):
     """R23, body part for free-function calls: every call `NAME(ARGS)` with NAME in `callees` (`ghost_token['free_callees']`) that is neither
     a method call (`.NAME(`), a path call (`::NAME(`) nor a definition (`fn NAME(`) gets the ghost argument appended, exactly as
